@@ -93,7 +93,28 @@ Section P.
   Theorem C10_step_counters_up : forall strat force spec st f st',
     step_gff call strat force spec st f = Ok st' -> cle (s_auto st) (s_auto st').
   Proof. exact (step_gff_cle call). Qed.
+  (* add_relation(parent, child, level, child_func): refused - and then nothing at all has changed - unless both features
+     are stored and the triple is new ... *)
+  Theorem C10_add_relation_refused : forall s p c l rt e, snd (step call kind s (OpAddRel p c l rt)) = Err e ->
+    fst (step call kind s (OpAddRel p c l rt)) = s /\
+    (has_id p (s_rows (m_disk s)) = false \/ has_id c (s_rows (m_disk s)) = false \/ has_rel (mkRel p c l) (s_rels (m_disk s)) = true).
+  Proof. exact (l_addrel_refused call kind). Qed.
+
+  (* ... otherwise exactly that one triple is appended, the child's row is rewritten in place only when a child_func is
+     given, and nothing else moves: other rows, duplicates, persisted and live counters, backup *)
+  Theorem C10_add_relation_exact : forall s p c l rt, snd (step call kind s (OpAddRel p c l rt)) = Ok tt ->
+    let s' := fst (step call kind s (OpAddRel p c l rt)) in
+    has_id p (s_rows (m_disk s)) = true /\ has_id c (s_rows (m_disk s)) = true /\ has_rel (mkRel p c l) (s_rels (m_disk s)) = false /\
+    s_rels (m_disk s') = s_rels (m_disk s) ++ [mkRel p c l] /\
+    s_rows (m_disk s') = (if rt then update_id c (fun r => set_bin (setf FFtype RETYPED r)) (s_rows (m_disk s)) else s_rows (m_disk s)) /\
+    s_dups (m_disk s') = s_dups (m_disk s) /\ s_auto (m_disk s') = s_auto (m_disk s) /\ m_mem s' = m_mem s /\ m_bak s' = m_bak s.
+  Proof. exact (l_addrel_done call kind). Qed.
+
+  Theorem C10_add_relation_keys : forall s p c l rt, ids (m_disk (fst (step call kind s (OpAddRel p c l rt)))) = ids (m_disk s).
+  Proof. exact (l_addrel_ids call kind). Qed.
+
 End P.
+Print Assumptions C10_add_relation_refused. Print Assumptions C10_add_relation_exact. Print Assumptions C10_add_relation_keys.
 Print Assumptions C10_delete_rows.
 Print Assumptions C10_delete_rels.
 Print Assumptions C10_delete_nothing_else.
